@@ -47,7 +47,7 @@ Concat(ss) == IF ss = <<>> THEN <<>> ELSE Head(ss) \o Concat(Tail(ss))
 RECURSIVE Repeat(_, _)
 Repeat(s, k) == IF k = 0 THEN <<>> ELSE s \o Repeat(s, k - 1)
 
-Reverse(s) == [i \in 1..Len(s) |-> s[Len(s) - i + 1]]
+ReverseSeq(s) == [i \in 1..Len(s) |-> s[Len(s) - i + 1]]
 
 RECURSIVE SumSeq(_)
 SumSeq(s) == IF s = <<>> THEN 0 ELSE Head(s) + SumSeq(Tail(s))
